@@ -253,7 +253,7 @@ func runHistory(lines []string) []string {
 		f := strings.Fields(line)
 		if len(f) == 2 && f[0] == "reset" {
 			c, err := strconv.Atoi(f[1])
-			if err != nil || c < 0 {
+			if err != nil {
 				out = append(out, "bad-op")
 				continue
 			}
@@ -433,6 +433,7 @@ func genSetCap(r *hx.Rng, emit func(string)) int {
 }
 
 const maxInt = int(^uint(0) >> 1)
+const minInt = -maxInt - 1
 
 // genLimits: capacities and amounts at the limits of Go's int (MaxInt, MaxInt-1, MaxInt/2+1): usage within one period
 // that sums past MaxInt must make the later request wait (the code compares `capacity - used`, which cannot overflow
@@ -440,7 +441,10 @@ const maxInt = int(^uint(0) >> 1)
 func genLimits(r *hx.Rng, emit func(string)) int {
 	cnt := 0
 	out := func(s string) { emit(s); cnt++ }
-	big := []int{maxInt, maxInt, maxInt - 1, maxInt/2 + 1, maxInt/2 + 2, maxInt / 2, maxInt - 10}
+	big := []int{maxInt, maxInt, maxInt - 1, maxInt/2 + 1, maxInt/2 + 2, maxInt / 2, maxInt - 10, maxInt/2 - 1}
+	if r.Chance(1, 10) {
+		big = []int{minInt, -maxInt, -1, minInt + 1}
+	}
 	caps := []int{hx.Pick(r, big)}
 	parent := []int{-1}
 	depth := []int{0}
@@ -450,17 +454,17 @@ func genLimits(r *hx.Rng, emit func(string)) int {
 		if depth[p] >= 2 {
 			p = 0
 		}
-		c := hx.Pick(r, []int{maxInt, maxInt - 1, maxInt/2 + 1, caps[p], caps[p] - 1, 1000, 500})
-		if c < 0 {
-			c = 0
-		}
+		c := hx.Pick(r, []int{maxInt, maxInt - 1, maxInt/2 + 1, caps[p], caps[p] - 1, 1000, 500, minInt, -1})
 		out(fmt.Sprintf("new %d %d", p, c))
 		caps, parent, depth = append(caps, c), append(parent, p), append(depth, depth[p]+1)
 	}
 	amount := func(l int) int {
 		c := caps[l]
-		a := hx.Pick(r, []int{c - 10, c - 10, c, c - 1, c/2 + 1, c / 2, maxInt - 10, maxInt/2 + 1, 500, 500, 1, 9, 10, 11, c - 500, caps[0] - 10})
-		if a < 1 {
+		if c < 0 { // no wrap-around in the generator itself
+			return hx.Pick(r, []int{1, 0, 500, maxInt, minInt, -1})
+		}
+		a := hx.Pick(r, []int{c - 10, c - 10, c, c - 1, c/2 + 1, c / 2, maxInt - 10, maxInt/2 + 1, 500, 500, 1, 9, 10, 11, c - 500, maxInt, minInt, -maxInt})
+		if a == 0 || (a < 0 && a > -maxInt) {
 			a = 1
 		}
 		return a
@@ -472,7 +476,7 @@ func genLimits(r *hx.Rng, emit func(string)) int {
 		}
 		if r.Chance(1, 5) {
 			l := r.Intn(len(caps))
-			nc := hx.Pick(r, []int{maxInt, maxInt - 1, maxInt/2 + 1, 500})
+			nc := hx.Pick(r, []int{maxInt, maxInt - 1, maxInt/2 + 1, 500, minInt, -1, 0})
 			out(fmt.Sprintf("setcap %d %d", l, nc))
 			caps[l] = nc
 		}
@@ -490,7 +494,224 @@ func genLimits(r *hx.Rng, emit func(string)) int {
 	return cnt
 }
 
+// genWide: a root with 12 ... 70 children (the sizes around 16/17, 32/33, 64/65); children are closed at the first,
+// last and middle position of the parent's list (swap-remove) and in the only-child case; every tick prints LastUsed of
+// all limiters, so a child that is no longer reached by reset shows.
+func genWide(r *hx.Rng, emit func(string)) int {
+	cnt := 0
+	out := func(s string) { emit(s); cnt++ }
+	w := hx.Pick(r, []int{1, 2, 12, 16, 17, 32, 33, 64, 65, 70})
+	rootCap := hx.Pick(r, []int{w / 2, w, w + 3, 2 * w, 5})
+	out("reset " + strconv.Itoa(rootCap))
+	for i := 0; i < w; i++ {
+		out(fmt.Sprintf("new 0 %d", hx.Pick(r, []int{1, 1, 2, 3, 0, rootCap})))
+	}
+	grand := 0
+	if r.Chance(1, 2) { // some grandchildren under the first / last child
+		for i, k := 0, r.Range(1, 3); i < k; i++ {
+			out(fmt.Sprintf("new %d %d", hx.Pick(r, []int{1, w, (w + 1) / 2}), r.Range(1, 3)))
+			grand++
+		}
+	}
+	n := 1 + w + grand
+	burst := func(k int) {
+		for i := 0; i < k; i++ {
+			out(fmt.Sprintf("use %d %d", r.Range(1, n-1), hx.Pick(r, []int{1, 1, 1, 2})))
+		}
+	}
+	burst(r.Range(w/2, w+4))
+	for t, k := 0, r.Range(2, 4); t < k; t++ {
+		for i, m := 0, r.Intn(4); i < m; i++ {
+			out(fmt.Sprintf("close %d", hx.Pick(r, []int{1, w, (w + 1) / 2, r.Range(1, n-1), r.Range(1, n-1)})))
+		}
+		out("tick")
+		burst(r.Intn(w/2 + 2))
+		if r.Chance(1, 3) {
+			out(fmt.Sprintf("new 0 %d", r.Range(1, 2)))
+			n++
+		}
+	}
+	out("tick")
+	out("tick") // idle periods
+	out("tick")
+	if r.Chance(1, 2) {
+		out("close 0")
+	}
+	return cnt
+}
+
+// genDeep: a chain of depth 4-6 with side branches and caps above and below the parents; requests queue on leaves
+// and inner limiters; an inner (non-root, non-leaf) limiter is closed while requests wait below it; siblings are used
+// afterwards; New on the closed limiter, Close twice; several fully idle periods at the end (LastUsed of every level
+// is printed by each tick).
+func genDeep(r *hx.Rng, emit func(string)) int {
+	cnt := 0
+	out := func(s string) { emit(s); cnt++ }
+	d := r.Range(4, 6)
+	rootCap := r.Range(3, 12)
+	out("reset " + strconv.Itoa(rootCap))
+	caps := []int{rootCap}
+	parent := []int{-1}
+	add := func(p, c int) int {
+		if c < 0 {
+			c = 0
+		}
+		out(fmt.Sprintf("new %d %d", p, c))
+		caps, parent = append(caps, c), append(parent, p)
+		return len(caps) - 1
+	}
+	chain := []int{0}
+	for i := 1; i <= d; i++ {
+		p := chain[len(chain)-1]
+		chain = append(chain, add(p, hx.Pick(r, []int{caps[p], caps[p] + 2, caps[p] - 1, (caps[p] + 1) / 2, r.Range(1, 9)})))
+	}
+	for i, k := 0, r.Range(1, 4); i < k; i++ { // side branches
+		p := chain[r.Intn(len(chain)-1)]
+		add(p, r.Range(1, 8))
+	}
+	n := len(caps)
+	use := func(l int) {
+		c := caps[l]
+		if c < 1 {
+			c = 1
+		}
+		out(fmt.Sprintf("use %d %d", l, hx.Pick(r, []int{1, 2, c, (c + 1) / 2, r.Range(1, c)})))
+	}
+	for i, k := 0, r.Range(4, 12); i < k; i++ {
+		if r.Chance(2, 3) {
+			use(chain[r.Range(2, d)]) // deep down
+		} else {
+			use(r.Intn(n))
+		}
+	}
+	mid := chain[r.Range(1, d-1)] // neither the root nor the leaf of the chain
+	closedMid := false
+	for t, k := 0, r.Range(3, 5); t < k; t++ {
+		if !closedMid && r.Chance(1, 2) {
+			out(fmt.Sprintf("close %d", mid))
+			closedMid = true
+			use(chain[d])            // below the closed limiter: refused
+			use(parent[mid])         // above it: still alive
+			use(r.Intn(n))           // anywhere
+			out(fmt.Sprintf("new %d 3", mid)) // New on a closed limiter
+			if r.Chance(1, 2) {
+				out(fmt.Sprintf("close %d", mid)) // twice
+			}
+			if r.Chance(1, 2) {
+				out(fmt.Sprintf("close %d", chain[d])) // a descendant of the closed limiter
+			}
+			out(fmt.Sprintf("closed %d", chain[d]))
+		}
+		out("tick")
+		for i, m := 0, r.Intn(4); i < m; i++ {
+			use(r.Intn(n)) // in the new period, after the queue has been served
+		}
+	}
+	for i, k := 0, r.Range(1, 3); i < k; i++ {
+		out("tick") // idle
+	}
+	out(fmt.Sprintf("last %d", chain[d]))
+	if r.Chance(1, 2) {
+		out("close 0")
+		out("close 0")
+		out(fmt.Sprintf("new 0 1"))
+	}
+	return cnt
+}
+
+// genQueue: 100-300 requests of mixed sizes wait and are served front to back over many ticks; the queue drains to
+// empty, stays idle, and is filled again.
+func genQueue(r *hx.Rng, emit func(string)) int {
+	cnt := 0
+	out := func(s string) { emit(s); cnt++ }
+	rootCap := r.Range(8, 20)
+	out("reset " + strconv.Itoa(rootCap))
+	n := 1
+	if r.Chance(1, 2) {
+		out(fmt.Sprintf("new 0 %d", hx.Pick(r, []int{rootCap + 5, rootCap, rootCap / 2})))
+		n++
+		if r.Chance(1, 2) {
+			out(fmt.Sprintf("new 1 %d", r.Range(2, rootCap)))
+			n++
+		}
+	}
+	total := 0
+	fill := func(k int) {
+		for i := 0; i < k; i++ {
+			a := hx.Pick(r, []int{1, 1, 1, 2, 2, 3})
+			total += a
+			out(fmt.Sprintf("use %d %d", r.Intn(n), a))
+		}
+	}
+	fill(hx.Pick(r, []int{100, 128, 129, 200, 256, 300}))
+	ticks := total/(rootCap/2+1) + 2
+	if ticks > 25 {
+		ticks = 25
+	}
+	for t := 0; t < ticks; t++ {
+		out("tick")
+	}
+	out("tick") // idle
+	fill(r.Range(10, 30))
+	out("tick")
+	out("tick")
+	out("close 0")
+	return cnt
+}
+
+// genExact: amounts that are exactly what is left (the generator tracks the binding limiter itself), one more waits;
+// SetCap to exactly the used amount, one below, one above, and two-digit values right before the next call.
+func genExact(r *hx.Rng, emit func(string)) int {
+	cnt := 0
+	out := func(s string) { emit(s); cnt++ }
+	c := hx.Pick(r, []int{1, 2, 9, 10, 11, 99, 100, 101, 255, 256, 1000})
+	out("reset " + strconv.Itoa(c))
+	t := 0
+	if r.Chance(1, 2) { // the child's cap is above: the root binds
+		out(fmt.Sprintf("new 0 %d", c+r.Range(0, 5)))
+		t = 1
+	}
+	for p, k := 0, r.Range(2, 4); p < k; p++ {
+		a := r.Range(0, c)
+		if a > 0 {
+			out(fmt.Sprintf("use %d %d", t, a))
+		}
+		if c-a > 0 {
+			out(fmt.Sprintf("use %d %d", r.Intn(t+1), c-a)) // exactly what is left
+		}
+		out(fmt.Sprintf("use %d 1", t)) // nothing left: waits
+		switch r.Intn(4) {
+		case 0:
+			out(fmt.Sprintf("setcap 0 %d", c)) // exactly the used amount
+		case 1:
+			out(fmt.Sprintf("setcap 0 %d", c+1))
+			out(fmt.Sprintf("use %d 1", t)) // immediately after the change
+			c++
+		case 2:
+			if c > 1 {
+				out(fmt.Sprintf("setcap 0 %d", c-1))
+				c--
+			}
+		}
+		out(fmt.Sprintf("cap %d 1", t))
+		out("tick")
+	}
+	out("tick")
+	out(fmt.Sprintf("last %d", t))
+	return cnt
+}
+
 func genHistory(r *hx.Rng, emit func(string)) int {
+	switch x := r.Intn(120); {
+	case x < 2:
+		return genQueue(r, emit)
+	case x < 10:
+		return genWide(r, emit)
+	case x < 26:
+		return genDeep(r, emit)
+	case x < 34:
+		return genExact(r, emit)
+	}
 	if r.Chance(1, 8) {
 		return genLimits(r, emit)
 	}
@@ -521,8 +742,11 @@ func genHistory(r *hx.Rng, emit func(string)) int {
 		}
 		pc := lims[p].cap
 		c := hx.Pick(r, []int{0, 1, pc - 1, pc, pc + 1, 2 * pc, pc / 2, r.Range(1, 12), r.Range(1, 6)})
-		if c < 0 {
+		if c < 0 && !r.Chance(1, 3) {
 			c = 0
+		}
+		if r.Chance(1, 60) {
+			c = hx.Pick(r, []int{-1, minInt, -maxInt, maxInt, 1 << 32, 100, 1000})
 		}
 		out(fmt.Sprintf("new %d %d", p, c))
 		if !isClosed(p) {
@@ -540,7 +764,8 @@ func genHistory(r *hx.Rng, emit func(string)) int {
 			c := lims[l].cap
 			switch x := r.Intn(40); {
 			case x < 26:
-				amt := hx.Pick(r, []int{0, 1, 1, 2, c, c, c + 1, c - 1, c / 2, (c + 1) / 2, -1, -7, r.Range(1, 4), r.Range(1, 13), rootCap, rootCap - 1})
+				amt := hx.Pick(r, []int{0, 1, 1, 2, c, c, c + 1, c - 1, c / 2, (c + 1) / 2, -1, -7, r.Range(1, 4), r.Range(1, 13), rootCap, rootCap - 1,
+					hx.Pick(r, []int{minInt, -maxInt, maxInt, maxInt - 1, maxInt/2 + 1, 1 << 31, 1<<32 + 1, 1000000001, 99})})
 				out(fmt.Sprintf("use %d %d", l, amt))
 			case x < 29:
 				newChild()
@@ -559,10 +784,7 @@ func genHistory(r *hx.Rng, emit func(string)) int {
 				out(fmt.Sprintf("closed %d", l))
 			default:
 				if useSetCap {
-					nc := hx.Pick(r, []int{0, 1, c - 1, c + 1, r.Range(0, 12)})
-					if nc < 0 {
-						nc = 0
-					}
+					nc := hx.Pick(r, []int{0, 1, c - 1, c + 1, r.Range(0, 12), 10, 11, 99, 100, -1, minInt, maxInt})
 					out(fmt.Sprintf("setcap %d %d", l, nc))
 					lims[l].cap = nc
 				} else {
@@ -582,7 +804,12 @@ func genHistory(r *hx.Rng, emit func(string)) int {
 	if rootClosed {
 		for i, k := 0, r.Intn(4); i < k; i++ {
 			l := r.Intn(len(lims))
-			switch r.Intn(5) {
+			switch r.Intn(7) {
+			case 5:
+				out(fmt.Sprintf("setcap %d %d", l, r.Range(0, 12))) // SetCap / Cap on a closed limiter
+				out(fmt.Sprintf("cap %d %d", l, r.Intn(2)))
+			case 6:
+				out(fmt.Sprintf("cap %d %d", l, r.Intn(2)))
 			case 0:
 				out(fmt.Sprintf("use %d %d", l, hx.Pick(r, []int{0, 1, -1, lims[l].cap + 1})))
 			case 1:
